@@ -55,9 +55,11 @@ size_t cqv_old_min_len, cqv_old_max_len;
 #include "src/metadata/statistics.c"
 
 void h_add_values(void) {
-  carquet_statistics_builder_t *b = nondet_ptr();
-  const void *values = nondet_ptr();
+  /* typed heap objects of exactly the sizes the contract requires (arbitrary contents) */
+  carquet_statistics_builder_t *b = nondet_bool() ? malloc(sizeof(*b)) : NULL;
   int64_t n = nondet_i64();
+  __CPROVER_assume(n <= CQV_MAXN);
+  bval_t *values = (n > 0 && nondet_bool()) ? malloc(sizeof(bval_t) * (size_t)n) : NULL;
   carquet_status_t st = carquet_statistics_add_values(b, values, n);
   if (st == CARQUET_OK) CQV_CANARY("add_values can succeed");
   CQV_CANARY("add_values returns");
